@@ -1201,37 +1201,6 @@ class Alias(ObjectAliasMixin):
             for name, member in final_target.inherited_members.items()
         }
 
-    # The `members` dictionary of an alias is rebuilt on each access:
-    # mutating it has no effect, so we mutate the members of the target instead.
-
-    def __setitem__(self, key: str | Sequence[str], value: Object | Alias) -> None:
-        """Set a member of the target with its name or path (consumer API).
-
-        See also: [`set_member`][griffe.Alias.set_member].
-        """
-        self.final_target[key] = value
-
-    def set_member(self, key: str | Sequence[str], value: Object | Alias) -> None:
-        """Set a member of the target with its name or path (producer API).
-
-        See also: [`members`][griffe.Alias.members].
-        """
-        self.final_target.set_member(key, value)
-
-    def __delitem__(self, key: str | Sequence[str]) -> None:
-        """Delete a member of the target with its name or path (consumer API).
-
-        See also: [`del_member`][griffe.Alias.del_member].
-        """
-        del self.final_target[key]
-
-    def del_member(self, key: str | Sequence[str]) -> None:
-        """Delete a member of the target with its name or path (producer API).
-
-        See also: [`members`][griffe.Alias.members].
-        """
-        self.final_target.del_member(key)
-
     def as_json(self, *, full: bool = False, **kwargs: Any) -> str:
         """Return this target's data as a JSON string.
 
